@@ -8,10 +8,13 @@ import (
 	"os"
 	"path/filepath"
 	"sort"
+	"strconv"
 	"strings"
 	"time"
 
 	"verifharness/hx"
+
+	"github.com/go-critic/go-critic/linter"
 )
 
 func init() { commands["lifecycle"] = lifecycle }
@@ -33,6 +36,8 @@ func lifecycle(args []string) {
 	catN := fs.Int("cat", 8, "catalogue size for -mode hist")
 	maxG := fs.Int("maxg", 0, "pairs: limit the number of predecessor files (0 = all)")
 	goVer := fs.String("go", "", "target Go version")
+	params := fs.String("params", "default", "parameter corner: default | min | max | name.param=value,... ")
+	others := fs.Int("others", 0, "order: number of other checkers sampled per file (0 = all)")
 	fs.Parse(args)
 
 	t0 := time.Now()
@@ -47,6 +52,7 @@ func lifecycle(args []string) {
 		loadErrs += le
 	}
 	infos := hx.Infos()
+	applyParams(infos, *params)
 	var names []string
 	if *only != "" {
 		names = strings.Split(*only, ",")
@@ -118,15 +124,46 @@ func lifecycle(args []string) {
 				}
 			}
 		case "order":
-			// C05: on every file, the checkers in a seed-chosen order and then in reverse
-			for _, u := range units {
-				perm := rng.Perm(len(names))
-				var cs []string
-				for _, i := range perm {
-					cs = append(cs, names[i])
+			// C05: on every file: its own checker first, then the tree-rewriting group, then a seed-chosen
+			// sample of the others (all when -others 0), and then the same list in reverse order
+			rewriting := []string{"boolExprSimplify", "typeUnparen", "paramTypeCombine", "badCond", "methodExprCall",
+				"sloppyReassign", "evalOrder", "exitAfterDefer", "rangeAppendAll", "commentFormatting", "underef", "unlambda"}
+			inNames := map[string]bool{}
+			for _, n := range names {
+				inNames[n] = true
+			}
+			ownerOf := map[*hx.Unit]string{}
+			for c, us := range ownFiles(units) {
+				for _, u := range us {
+					ownerOf[u] = c
 				}
-				for i := len(perm) - 1; i >= 0; i-- {
-					cs = append(cs, names[perm[i]])
+			}
+			for _, u := range units {
+				var cs []string
+				seen := map[string]bool{}
+				add := func(c string) {
+					if inNames[c] && !seen[c] {
+						seen[c] = true
+						cs = append(cs, c)
+					}
+				}
+				add(ownerOf[u])
+				for _, c := range rewriting {
+					add(c)
+				}
+				perm := rng.Perm(len(names))
+				k := 0
+				for _, i := range perm {
+					if *others > 0 && k >= *others {
+						break
+					}
+					if !seen[names[i]] {
+						add(names[i])
+						k++
+					}
+				}
+				for i := len(cs) - 1; i >= 0; i-- {
+					cs = append(cs, cs[i])
 				}
 				plan = append(plan, step{u, cs})
 			}
@@ -146,7 +183,9 @@ func lifecycle(args []string) {
 			}
 		}
 	}
-	r.ComputeRefs(need)
+	if r.Oblig["c03"] {
+		r.ComputeRefs(need)
+	}
 	tRefs := time.Since(t0)
 	// a reference run that damages its input is a C05 violation too
 	refMut := 0
@@ -269,4 +308,65 @@ func catalogue(units []*hx.Unit, n int, rng *rand.Rand) []*hx.Unit {
 		}
 	}
 	return cat
+}
+
+// applyParams overrides registered parameter values the way an integrator does
+// (writing CheckerParam.Value of the info objects before construction).
+func applyParams(infos []*linter.CheckerInfo, spec string) {
+	if spec == "" || spec == "default" {
+		return
+	}
+	for _, in := range infos {
+		for pname, p := range in.Params {
+			switch v := p.Value.(type) {
+			case int:
+				switch spec {
+				case "min":
+					p.Value = 0
+				case "one":
+					p.Value = 1
+				case "max":
+					p.Value = 1 << 30
+				}
+				_ = v
+			case bool:
+				switch spec {
+				case "min":
+					p.Value = false
+				case "max", "one":
+					p.Value = true
+				}
+			}
+			_ = pname
+		}
+	}
+	if strings.Contains(spec, "=") {
+		for _, kv := range strings.Split(spec, ",") {
+			eq := strings.IndexByte(kv, '=')
+			dot := strings.IndexByte(kv, '.')
+			if eq < 0 || dot < 0 || dot > eq {
+				hx.Fatalf("bad -params item %q", kv)
+			}
+			cn, pn, val := kv[:dot], kv[dot+1:eq], kv[eq+1:]
+			for _, in := range infos {
+				if in.Name != cn {
+					continue
+				}
+				p, ok := in.Params[pn]
+				if !ok {
+					hx.Fatalf("unknown parameter %s.%s", cn, pn)
+				}
+				switch p.Value.(type) {
+				case int:
+					n, err := strconv.Atoi(val)
+					hx.Must(err)
+					p.Value = n
+				case bool:
+					p.Value = val == "true"
+				case string:
+					p.Value = val
+				}
+			}
+		}
+	}
 }
